@@ -42,7 +42,9 @@ REGISTRY = {
     'disp': {
         'clear': [dict(kind='harness', name='disp_clear')],
     },
-    'driver': {'*': [dict(kind='egg', file='replays/driver/panic_before_rebuild.egg'), dict(kind='egg', file='replays/semi/seminaive.egg'),
+    # pseudo-unit: the Rust API write path (EGraph::update -> bridge flush_updates), C05 thorough tier only (F4)
+    'apiupdate': {'*': [dict(kind='harness', name='update_nomerge')]},
+    'driver': {'flush_updates_inner': [dict(kind='harness', name='update_nomerge')], '*': [dict(kind='egg', file='replays/driver/nomerge_conflict_by_union.egg'), dict(kind='egg', file='replays/driver/panic_before_rebuild.egg'), dict(kind='egg', file='replays/semi/seminaive.egg'),
                      dict(kind='egg', file='replays/driver/parallel_rebuild_every_row.egg', args=('-j', '4'), env={'EGGLOG_PARALLEL_REBUILD_CUTOFF': '1000'}),
                      dict(kind='egg', file='replays/driver/parallel_rebuild_every_row.egg')]},
 }
@@ -155,6 +157,8 @@ def run_all(units, tier='thorough'):
     seen = set()
     for u in units:
         for fn, entries in REGISTRY.get(u, {}).items():
+            if fn != '*':
+                continue    # function-specific entries serve the replay search of a failed obligation only
             for e in entries:
                 key = json.dumps(e, sort_keys=True)
                 if key in seen:
